@@ -1247,6 +1247,7 @@ func extractLocks(repo string, o *out) {
 			}
 			loops, calls, guarded := 0, 0, 0
 			guardOK := false
+			resultVar := "" // the variable that holds addSubConn's result, where it is not tested directly
 			ast.Inspect(fd.Body, func(n ast.Node) bool {
 				switch x := n.(type) {
 				case *ast.ForStmt:
@@ -1260,8 +1261,16 @@ func extractLocks(repo string, o *out) {
 					if exprString(x.Fun) == "gb.addSubConn" {
 						calls++
 					}
+				case *ast.AssignStmt:
+					// ok := gb.addSubConn()
+					if len(x.Lhs) == 1 && len(x.Rhs) == 1 && exprString(x.Rhs[0]) == "gb.addSubConn()" {
+						resultVar = exprString(x.Lhs[0])
+					}
 				case *ast.IfStmt:
-					if exprString(x.Cond) == "!gb.addSubConn()" && x.Init == nil && len(x.Body.List) > 0 {
+					if as, ok := x.Init.(*ast.AssignStmt); ok && len(as.Lhs) == 1 && len(as.Rhs) == 1 && exprString(as.Rhs[0]) == "gb.addSubConn()" {
+						resultVar = exprString(as.Lhs[0])
+					}
+					if (exprString(x.Cond) == "!gb.addSubConn()" && x.Init == nil || resultVar != "" && exprString(x.Cond) == "!"+resultVar) && len(x.Body.List) > 0 {
 						switch last := x.Body.List[len(x.Body.List)-1].(type) {
 						case *ast.BranchStmt:
 							if last.Tok.String() == "break" && last.Label == nil {
